@@ -525,6 +525,32 @@ def f7(run, project):
            "parse_hex_string has no ValueError exit for an input that ends inside a digit pair: text with an odd number of digits is "
            "decoded (the last digit silently dropped) instead of rejected", module=mod, node=fn, func=fn.name,
            construct="unpaired digit exit")
+    # a pending digit is a number (0..15) or "none": it must never be tested by truthiness (the digit 0 is a digit)
+    for smod, sfn in ((mod, fn), (project.module(SWTPM), project.module(SWTPM).function("parse_hex_string"))):
+        numeric, none = set(), set()
+        for a_ in walk_no_nested(sfn):
+            if isinstance(a_, ast.Assign) and len(a_.targets) == 1 and isinstance(a_.targets[0], ast.Name):
+                v = a_.value
+                if isinstance(v, ast.Constant) and v.value is None:
+                    none.add(a_.targets[0].id)
+                elif (isinstance(v, ast.Call) and call_name(v) in ("int", "ord", "int.from_bytes")) or \
+                        (isinstance(v, ast.BinOp) and isinstance(v.op, (ast.LShift, ast.BitOr, ast.Mult, ast.BitAnd))) or \
+                        (isinstance(v, ast.Constant) and isinstance(v.value, int) and not isinstance(v.value, bool)):
+                    numeric.add(a_.targets[0].id)
+        for n_ in walk_no_nested(sfn):
+            ops = []
+            if isinstance(n_, (ast.If, ast.While, ast.IfExp, ast.Assert)):
+                ops = [n_.test]
+            elif isinstance(n_, ast.BoolOp):
+                ops = list(n_.values)
+            elif isinstance(n_, ast.UnaryOp) and isinstance(n_.op, ast.Not):
+                ops = [n_.operand]
+            for o in ops:
+                if isinstance(o, ast.Name) and o.id in numeric & none:
+                    run.ob("F7", False, f"{smod.name.split('.')[-2]} scanner: `{o.id}` in boolean context",
+                           f"`{o.id}` holds a digit value (0..15) or None and is tested by truthiness: the digit 0 counts as 'no digit "
+                           "pending', so text whose unpaired last digit is 0 is accepted (the digit dropped) instead of rejected",
+                           module=smod, node=n_, func=sfn.name, construct=f"truthiness of {o.id}")
     # swtpm: the low-nibble state at end of input raises - part of the transition table checked by F6
     sm = project.module(SWTPM)
     sf = sm.function("parse_hex_string")
